@@ -98,11 +98,43 @@ func parseContract(s string) (contract, error) {
 // sentinel returns the service the settle wait looks for (prefix stk.z.), if any.
 func (c contract) sentinel() (service, bool) {
 	for _, s := range c {
-		if strings.HasPrefix(s.name, "stk.z.") && len(s.methods) > 0 {
-			return s, true
+		if strings.HasPrefix(s.name, "stk.z.") {
+			return s, true // possibly BARE (no methods): a contract with nothing routable for the PatternRouter
 		}
 	}
 	return service{}, false
+}
+
+// validTmpl mirrors what the driver's template parser (and routing.buildPattern) accept of the generator's pool: the
+// deliberately unparseable templates of the `badtemplates` contract have no leading slash or an unclosed brace.
+func validTmpl(p string) bool {
+	return strings.HasPrefix(p, "/") && strings.Count(p, "{") == strings.Count(p, "}")
+}
+
+// routable: the contract gives the PatternRouter at least one route (a binding-less method or a parseable binding).
+func (c contract) routable() bool {
+	for _, s := range c {
+		for _, m := range s.methods {
+			if len(m.bindings) == 0 {
+				return true
+			}
+			for _, b := range m.bindings {
+				if validTmpl(b.pattern) {
+					return true
+				}
+			}
+		}
+	}
+	return false
+}
+
+func (sv service) has(method string) bool {
+	for _, m := range sv.methods {
+		if m.name == method {
+			return true
+		}
+	}
+	return false
 }
 
 // canon is the contract with its services sorted by name (the order of a description's services comes from a Go map
